@@ -120,6 +120,7 @@ def defs_term(defs: dict) -> str:
 class Emitter:
     def __init__(self, tbl: G.Table, ns: dict):
         self.tbl, self.ns = tbl, ns
+        self.specs: dict = {}       # generic specialisations met while emitting types: id -> ("gdata", name, args)
 
     def flatten_union(self, members):
         """typing flattens nested unions and removes duplicate members (by type equality)"""
@@ -142,6 +143,11 @@ class Emitter:
             objs.append(o)
             out.append(m)
         return out
+
+    def spec_id(self, t) -> str:
+        sid = t[1] + "[" + ", ".join(G.ty_src(a, self.tbl, []) for a in t[2]) + "]"
+        self.specs[sid] = t
+        return sid
 
     def strip(self, t):
         while t[0] == "newtype":
@@ -206,6 +212,11 @@ class Emitter:
             return "(TUnion " + cl([self.ty(m) for m in ms]) + ")"
         if k == "data":
             return f"(TData {coq_str(t[1])})"
+        if k == "gdata":
+            # a specialisation G[int] is a class of its own (type arguments substituted) with the bare name G
+            return f"(TData {coq_str(self.spec_id(t))})"
+        if k == "tvar":
+            return "TAny"           # an unbound TypeVar (class used without arguments)
         if k == "nt":
             return f"(TNamed {coq_str(t[1])})"
         if k == "td":
@@ -223,16 +234,25 @@ class Emitter:
     def env(self) -> str:
         classes, typeds, nts, enums = [], [], [], []
         ov = {None: "None", "as_dict": "(Some true)", "as_list": "(Some false)"}
+        def data_entry(d, cid, tenv):
+            fs = []
+            for f in d["fields"]:
+                key = f["alias"] if f["alias"] is not None else f["name"]
+                # observed rendering: a field declared as the bare TypeVar stays {} (Any) in the schema of a specialisation,
+                # a TypeVar nested in the field type (List[T], Optional[T]) is replaced by the type argument
+                fty = "TAny" if f["type"][0] == "tvar" else self.ty(G.subst(f["type"], tenv))
+                if (f.get("ser") or ("",))[0] == "fn":
+                    fty = self.ty(f["ser"][1])      # the schema describes the return annotation of the serialize function
+                fs.append(f"(mkF {coq_str(f['name'])} {coq_str(key)} {fty} "
+                          f"{cbool(f['default'] is not None)} {cbool(f['init'])} {ov[f.get('nt_override')]} "
+                          f"{cbool(f['default'] is not None and f['default'][1] == 'None')})")
+            cfg = d.get("cfg") or {}
+            return f"(mkC {coq_str(cid)} {coq_str(d['clsname'])} {cl(fs)} {cbool(cfg.get('nt_as_dict'))} {cbool(cfg.get('omit_none'))})"
         for d in self.tbl.decls:
+            if d["kind"] == "data" and d["tvars"]:
+                continue
             if d["kind"] == "data":
-                if d["tvars"]:
-                    continue
-                fs = []
-                for f in d["fields"]:
-                    key = f["alias"] if f["alias"] is not None else f["name"]
-                    fs.append(f"(mkF {coq_str(f['name'])} {coq_str(key)} {self.ty(f['type'])} {cbool(f['default'] is not None)} {cbool(f['init'])} {ov[f.get('nt_override')]} {cbool(f['default'] is not None and f['default'][1] == 'None')})")
-                cfg = d.get("cfg") or {}
-                classes.append(f"(mkC {coq_str(d['name'])} {coq_str(d['clsname'])} {cl(fs)} {cbool(cfg.get('nt_as_dict'))} {cbool(cfg.get('omit_none'))})")
+                classes.append(data_entry(d, d["name"], {}))
             elif d["kind"] == "nt":
                 fs = [f"(mkF {coq_str(f['name'])} {coq_str(f['name'])} {self.ty(f['type'])} {cbool(f['default'] is not None)} true None false)"
                       for f in d["fields"]]
@@ -246,6 +266,12 @@ class Emitter:
             elif d["kind"] == "enum":
                 vals = [json_term(m.value) for m in self.ns[d["name"]]]
                 enums.append(f"(mkE {coq_str(d['name'])} {cl(vals)} {cbool(d['base'] in ('Flag', 'IntFlag'))})")
+        done = set()
+        while set(self.specs) - done:           # emitting a specialisation may meet further ones
+            for sid in sorted(set(self.specs) - done):
+                t = self.specs[sid]
+                classes.append(data_entry(self.tbl.by_name[t[1]], sid, {"T": t[2][0]}))
+                done.add(sid)
         return f"(mkEnv {cl(classes)} {cl(typeds)} {cl(nts)} {cl(enums)})"
 
     # ------------------------------------------------------------ values (type directed, on real objects)
@@ -266,6 +292,20 @@ class Emitter:
     def value(self, t, v) -> str:
         t = self.strip(t)
         k = t[0]
+        if k == "gdata":
+            d = self.tbl.by_name[t[1]]
+            env = {"T": t[2][0]}
+            out = []
+            for f in d["fields"]:
+                fv = getattr(v, f["name"])
+                if f["type"][0] == "tvar":          # model type TAny: the value by its basic form at the type argument
+                    from mashumaro.codecs.basic import BasicEncoder
+                    import json as _json
+                    enc = BasicEncoder(eval(G.ty_src(env["T"], self.tbl, []), self.ns)).encode(fv)
+                    out.append(f"({coq_str(f['name'])}, (VRaw {json_term(_json.loads(_json.dumps(enc)))}))")
+                else:
+                    out.append(f"({coq_str(f['name'])}, {self.value(G.subst(f['type'], env), fv)})")
+            return "(VObj " + cl(out) + ")"
         if k == "any":
             return f"(VRaw {json_term(plain_json(v))})"
         if k == "none":
@@ -333,7 +373,13 @@ class Emitter:
             raise OutOfModel("value matches no union member")
         if k == "data":
             d = self.tbl.by_name[t[1]]
-            return "(VObj " + cl([f"({coq_str(f['name'])}, {self.value(f['type'], getattr(v, f['name']))})" for f in d["fields"]]) + ")"
+            out = []
+            for f in d["fields"]:
+                if (f.get("ser") or ("",))[0] == "fn":      # the member is what the user's serialize function returns
+                    out.append(f"({coq_str(f['name'])}, {self.value(f['ser'][1], eval(G.val_src(f['ser'][2]), self.ns))})")
+                else:
+                    out.append(f"({coq_str(f['name'])}, {self.value(f['type'], getattr(v, f['name']))})")
+            return "(VObj " + cl(out) + ")"
         if k == "nt":
             d = self.tbl.by_name[t[1]]
             return "(VList " + cl([self.value(f["type"], x) for f, x in zip(d["fields"], v)]) + ")"
@@ -421,7 +467,7 @@ def union_safe(t, tbl, em: "Emitter", seen=None) -> bool:
         if hard and any(m[0] == "float" for m in ms):
             return False        # an int offered at the float member is not class-exact: it falls to the other member's packer
         return all(union_safe(m, tbl, em, seen) for m in ms)
-    if t[0] in ("data", "nt", "td"):
+    if t[0] in ("data", "nt", "td", "gdata"):
         if t[1] in seen:
             return True
         seen.add(t[1])
